@@ -56,6 +56,24 @@ CLAIMS = {
  "C17": ("TCP exchange exactly under msgTruncated(UDP reply) with its results returned unchanged; non-truncated reply returned as is with no TCP call reachable; msgTruncated == bit 1 of byte 2; same dial address value; same query. Whole property up to the DNS header layout.",
          TRUST,
          "CFG guard/return-shape rules + expression shape of the TC test"),
+ "C03": ("malformed queries rejected first with no reply; packed message = plugins' response or SetReply(query)+SERVFAIL/REFUSED; RA forced; OPT re-attached before UDP truncation, truncation iff UDP with a size proven in [512,65535], pack last; provenance of every SetResponse argument from the query it answers; query question/id only modified on a copy or under a deferred restore; redirect reply fix-up; cache key injective in the question. Not decided: arbitrary plugin compositions, miekg Truncate/Pack semantics, one reply per request at socket level.",
+         TRUST + "dns.Msg.SetReply / Truncate as documented; upstreams echo the question.",
+         "guard/dominance rules on the entry handler + inter-procedural value provenance (through channels, fields, calls) + interval analysis"),
+ "C12": ("ONLY structural necessary conditions: same normalisation on rule and query side, regexps compiled as written, patterns passed on unchanged, shared label scanner with '.' separator, type dispatch table, lookup precedence, default rule types, deepest-value rule in the trie walk. NOT decided: the 'if and only if' over all rule sets and names (trie walk, scanner arithmetic, substring/regexp semantics) — input-quantified algorithmics that no static argument in reach settles.",
+         TRUST + "strings / regexp as documented.",
+         "agreement rules between sibling Add/Match implementations + dispatch/precedence tables from SSA"),
+ "C13": ("ONLY structural necessary conditions: sort-after-last-load typestate of every created list, who-writes of the slice and the sorted flag (true only after sort+merge replaced the slice), same to6 mapping on both sides, +96 bits exactly for IPv4, masked prefixes, Contains refusing unsorted lists, full-length prefixes for bare addresses. NOT decided: the 'if and only if' (comparator, merge of covered prefixes, binary search) over all prefix multisets and addresses.",
+         TRUST + "net/netip as documented.",
+         "path-enumerating typestate + who-writes index + expression-shape rules"),
+ "C14": ("helper count in [1,3] by interval analysis; private per-iteration query copy released by its helper, shared packed query not captured; helper send under select with done (closed by defer) and 5 s timeout context; collecting select watches ctx; acceptance rule = {last, NOERROR, NXDOMAIN}, failures skipped, same count in both loops; cyclic selection from a random start; tag handling. Not decided: arrival order, timing.",
+         TRUST + "math/rand/v2.IntN range.",
+         "interval analysis + closure-capture/provenance rules + CFG predecessor-edge analysis of the acceptance block"),
+ "C15": ("OPT constructed only by the context helper; option lists written only by the two forwarding plugins; client OPT swapped in place and kept only as clientOpt; resp/upstreamOpt written only by SetResponse (popOpt removes exactly the OPT it found, searching the whole section) and context copy; response OPT iff client OPT, DO mirrored, deep-copied with the context, appended by the handler only when present; TTL loops skip OPT; cache copy drops OPT. Not decided: messages with several OPT records.",
+         TRUST + "miekg/dns OPT accessors.",
+         "who-writes / who-constructs index over the whole module + guard rules"),
+ "C16": ("every stream Write sends one buffer from a framing constructor (servers: handler invoked with the length-prefixing packer and returning only its result; no vectored/split writes); constructors check len<=65535 first, header uint16(len) at 0 of a len+2 buffer, body at [2:] of the same buffer; reader uses io.ReadFull twice, rejects len<=12 before allocating, exact-size buffer, release on error; all stream readers go through it. Trusted: io.ReadFull under chunking, write atomicity of one Write call.",
+         TRUST + "io.ReadFull semantics; one Write call is not interleaved with others.",
+         "value provenance of written buffers + expression-shape rules on constructors and reader"),
 }
 NA = {}
 
